@@ -287,6 +287,15 @@ def rule_d(ctx: Context, R: Reporter, gc: ClassInfo):
                 if isinstance(rv, ast.BinOp) and isinstance(rv.op, ast.Div) and isinstance(rv.right, ast.Call) and (ctx.res.external_name(m, rv.right) or "") == "numpy.sum" and rv.right.args and norm_text(rv.right.args[0]) == norm_text(rv.left):
                     normalised = True
                     rv = rv.left
+                # a copy of the sums is the sums
+                while True:
+                    if isinstance(rv, ast.Call) and isinstance(rv.func, ast.Attribute) and rv.func.attr == "copy" and not rv.args and not rv.keywords:
+                        rv = rv.func.value
+                    elif isinstance(rv, ast.Call) and (ctx.res.external_name(m, rv) or "") in ("numpy.copy", "numpy.array", "numpy.asarray") and len(rv.args) == 1 \
+                            and all(k.arg in ("copy", "dtype") and (k.arg != "dtype" or norm_text(k.value) in ("float", "np.float64", "numpy.float64")) for k in rv.keywords):
+                        rv = rv.args[0]
+                    else:
+                        break
                 if isinstance(rv, ast.Call) and (ctx.res.external_name(m, rv) or "") == "numpy.sum" and any(k.arg == "axis" and const_value(k.value) == 0 for k in rv.keywords):
                     colsum = True
     R.check("C15.d", "the M-step returns mixture weights normalised to sum to one", normalised, m, rn.stmt,
